@@ -14,6 +14,11 @@ Inductive lev := LSeg (l : nat) (script : list bev) | LClose (l : nat).
 
 Inductive case :=
 | CCache (kind : mkind) (prefill : bool) (evs : list ev) (direct deco : list Keys.obs)
+(* ONE decorator object built with the options form (no explicit mapping) applied to TWO
+   functions, against two direct wrappings: each function has its own private store, so each
+   function's calls (evs0 / evs1, interleaved in time by the harness) behave like a cache of
+   their own.  d = direct form, e = options form; index = function. *)
+| CCache2 (evs0 evs1 : list ev) (d0 e0 d1 e1 : list Keys.obs)
 | CBuffer (timeout : option N) (script : list bufev) (direct deco ctor : list (N * list nat))
 | CBatcher (cfg : ocfg) (script : list bev) (direct deco ctor : btrace) (cross : nat)
 | CLoops (cfg : ocfg) (plan : list lev) (observed : list (nat * btrace)) (cross : nat).
@@ -42,6 +47,9 @@ Definition agree (c : case) : bool :=
   match c with
   | CCache kind pf evs d1 d2 =>
       Case_C14.agree (C14 kind pf evs d1) && Case_C14.agree (C14 kind pf evs d2)
+  | CCache2 evs0 evs1 d0 e0 d1 e1 =>
+      Case_C14.agree (C14 KDefault false evs0 d0) && Case_C14.agree (C14 KDefault false evs0 e0) &&
+      Case_C14.agree (C14 KDefault false evs1 d1) && Case_C14.agree (C14 KDefault false evs1 e1)
   | CBuffer t sc d1 d2 d3 =>
       let m := buf_trace t sc in
       flushes_eqb m d1 && flushes_eqb m d2 && flushes_eqb m d3
@@ -109,6 +117,9 @@ Definition ok (c : case) : bool :=
   match c with
   | CCache kind pf evs d1 d2 =>
       list_eqb Case_C14.obs_eqb d1 d2 && Case_C14.ok (C14 kind pf evs d2)
+  | CCache2 evs0 evs1 d0 e0 d1 e1 =>
+      list_eqb Case_C14.obs_eqb d0 e0 && list_eqb Case_C14.obs_eqb d1 e1 &&
+      Case_C14.ok (C14 KDefault false evs0 e0) && Case_C14.ok (C14 KDefault false evs1 e1)
   | CBuffer t sc d1 d2 d3 =>
       flushes_eqb d1 d2 && flushes_eqb d3 d2 &&
       buffer_ok (match t with Some v => v | None => buf_default_timeout end) sc d2
@@ -127,6 +138,8 @@ Definition ocfg_is_default (o : ocfg) : bool :=
 Definition nontrivial (c : case) : bool :=
   match c with
   | CCache kind pf evs d1 d2 => Case_C14.nontrivial (C14 kind pf evs d2)
+  | CCache2 evs0 evs1 d0 e0 d1 e1 =>
+      Case_C14.nontrivial (C14 KDefault false evs0 e0) && Case_C14.nontrivial (C14 KDefault false evs1 e1)
   | CBuffer t sc d1 d2 d3 =>
       match d2 with [] => false | _ => true end &&
       match t with Some _ => negb (flushes_eqb (buf_trace t sc) (buf_trace None sc)) | None => true end
